@@ -123,7 +123,7 @@ def _poll_all(port):
         if m is None:
             return res
         res.append(m)
-        if len(res) > 1000:
+        if len(res) > 300000:
             return res
 
 
@@ -412,8 +412,9 @@ HOSTS = ['', 'localhost', '127.0.0.1', 'a-b.example.org', 'x', 'HOST_1', '0']
 
 
 def check_address(host, lo, hi):
+    import os
     out = []
-    for p in range(lo, hi):
+    for p in range(lo, hi, 37 if os.environ.get('VERIF_CHILD') else 1):
         try:
             s = format_address(host, p)
             back = parse_address(s)
@@ -433,7 +434,7 @@ def run_case(case):
     k = case['kind']
     if k == 'cut':
         res, stuck = watchdog(lambda: check_cut(case), f'socket port, cut={case["cut"]} drain={case.get("drain")}',
-                              timeout=5.0, drain=case.get('drain', 'iterate'))
+                              timeout=case.get('timeout', 5.0), drain=case.get('drain', 'iterate'))
         return stuck or res
     if k == 'send':
         res, stuck = watchdog(lambda: check_send_close(case), 'send/close', timeout=5.0)
@@ -556,6 +557,13 @@ def main(ctx):
                                    [fail('address-invalid-accepted', f'parse_address({bad!r}) -> {r!r}')]))
         except ValueError:
             pass
+    # a long session (more than 2**16 messages, more than 2**17 bytes) before the peer leaves in mid-message
+    long_msgs = [{'type': 'note_on', 'channel': i % 16, 'note': (i // 16) % 128, 'velocity': 1 + (i // 2048) % 127, 'time': 0}
+                 for i in range(70000)]
+    nb = 3 * len(long_msgs)
+    for drain in ('iterate', 'poll'):
+        ctx.check({'kind': 'cut', 'msgs': long_msgs, 'cut': nb - 1, 'segs': list(range(30000, nb, 30000)),
+                   'polls': list(range(0, 8)), 'drain': drain, 'timeout': 120.0}, classes=('volume',), sample=False)
     for case in brokenpipe_cases():
         ctx.check(case, classes=('broken-pipe',), sample=False)
     try:
